@@ -29,6 +29,7 @@ func init() {
 		Rules: []core.Rule{
 			{ID: "R04.13", Template: "T-SIBLING", Text: "nested calls in the interpreter pass the running function's own instance as the calling module", Min: 1},
 			{ID: "R04.9", Template: "T-CONSULT", Text: "interpreter return_call_indirect re-uses the frame only within the same instance", Min: 1},
+			{ID: "R04.17", Template: "T-CONSULT", Text: "the host-side table lookup creates the function with the engine of the instance that defines it", Min: 1},
 			{ID: "R04.10", Template: "T-MUSTPASS", Text: "a store to an imported global reloads the other imported mutable globals (genuine defect found and fixed)", Min: 1},
 			{ID: "R04.11", Template: "T-SIBLING", Text: "wazevo: the reference of an imported function is the defining module's function instance (genuine defect found and fixed)", Min: 1},
 			{ID: "R04.12", Template: "T-MUSTPASS", Text: "active element segments write every slot they cover, null initialisers included (known finding)", Min: 1},
@@ -45,6 +46,7 @@ func init() {
 		},
 		Run: runC04,
 		Controls: []core.Control{
+			{Name: "lookup-uses-own-engine", File: "internal/wasm/module_instance_lookup.go", Old: "\t\treturn fm.Engine.NewFunction(index)\n", New: "\t\treturn m.Engine.NewFunction(index)\n", Rule: "R04.17", Substr: "defines it"},
 			{Name: "global-string-prints-captured-value", File: "internal/wasm/store.go", Old: "\t\treturn fmt.Sprintf(\"global(%d)\", val)", New: "\t\treturn fmt.Sprintf(\"global(%d)\", g.Val)", Rule: "R04.14", Substr: "String"},
 			{Name: "data-offset-signed", File: "internal/wasm/store.go", Old: "\t\t\toffset := uint64(uint32(executeConstExpressionI32(m.Globals, &d.OffsetExpression)))\n\t\t\tif offset+uint64(len(d.Init)) > uint64(len(m.MemoryInstance.Buffer)) {", New: "\t\t\toffset := int(executeConstExpressionI32(m.Globals, &d.OffsetExpression))\n\t\t\tif offset < 0 || offset+len(d.Init) > len(m.MemoryInstance.Buffer) {", Rule: "R04.15", Substr: "offset"},
 			{Name: "tail-call-fallback-passes-callers-module", File: "internal/engine/interpreter/interpreter.go", Old: "\t\t\t\t// Revert to a normal call.\n\t\t\t\tce.callFunction(ctx, f.moduleInstance, tf)", New: "\t\t\t\t// Revert to a normal call.\n\t\t\t\tce.callFunction(ctx, m, tf)", Rule: "R04.13", Substr: "calling module"},
@@ -71,6 +73,7 @@ func runC04(c *core.Ctx) {
 	checkRound2C04(c)
 	checkBaseline3C04(c)
 	checkInterpCallerInstance(c, "R04.13")
+	checkLookupUsesDefiningEngine(c)
 	c.SSA()
 	wp := c.Pkg("internal/wasm")
 	info := wp.TypesInfo
